@@ -17,6 +17,8 @@ pub enum Ty {
     Ns,
     /// move-only
     Mv,
+    /// Send but not Sync
+    Sn,
     Opt(Box<Ty>),
     Res(Box<Ty>),
     Vec(Box<Ty>),
@@ -41,6 +43,7 @@ impl Ty {
             Ty::Ck => "Ck".into(),
             Ty::Ns => "Ns".into(),
             Ty::Mv => "Mv".into(),
+            Ty::Sn => "Sn".into(),
             Ty::Opt(t) => format!("Option<{}>", t.name()),
             Ty::Res(t) => format!("Result<{}, i64>", t.name()),
             Ty::Vec(t) => format!("Vec<{}>", t.name()),
@@ -196,6 +199,8 @@ pub struct CG<'a> {
     pub ck: f64,
     /// probability of the !Send / move-only types `Ns` / `Mv` where a scalar is drawn
     pub ns: f64,
+    /// probability of the Send-but-not-Sync type `Sn` where a scalar is drawn
+    pub sn: f64,
     /// probability that a callback operand is written as a closure around a nested macro invocation (C17)
     pub nest: f64,
     pub nest_depth: usize,
@@ -221,6 +226,9 @@ impl<'a> CG<'a> {
         let k = if max_depth == 0 { self.rng.random_range(0..4) } else { self.rng.random_range(0..9) };
         if k < 4 && rb(self.rng, self.ck) {
             return Ty::Ck;
+        }
+        if k < 4 && rb(self.rng, self.sn) {
+            return Ty::Sn;
         }
         if k < 4 && rb(self.rng, self.ns) {
             return if rb(self.rng, 0.6) { Ty::Ns } else { Ty::Mv };
@@ -625,7 +633,7 @@ impl<'a> CG<'a> {
                     cands.push(("clone()".into(), (**u).clone()));
                 }
             }
-            Ty::Unit | Ty::Ck | Ty::Ns | Ty::Mv | Ty::Fut(_) | Ty::Stream(_) => {}
+            Ty::Unit | Ty::Ck | Ty::Ns | Ty::Mv | Ty::Sn | Ty::Fut(_) | Ty::Stream(_) => {}
         }
         if cands.is_empty() {
             return None;
@@ -1009,7 +1017,7 @@ fn default_ok(t: &Ty) -> bool {
 
 fn clone_ok(t: &Ty) -> bool {
     match t {
-        Ty::Iter(_) | Ty::Ref(_) | Ty::Ns | Ty::Mv | Ty::Fut(_) | Ty::Stream(_) => false,
+        Ty::Iter(_) | Ty::Ref(_) | Ty::Ns | Ty::Mv | Ty::Sn | Ty::Fut(_) | Ty::Stream(_) => false,
         Ty::Opt(u) | Ty::Res(u) | Ty::Vec(u) => clone_ok(u),
         Ty::Tup(a, b) => clone_ok(a) && clone_ok(b),
         _ => true,
